@@ -844,7 +844,7 @@ def preprocess_timed_token_sequences(
                         for token in sequence
                         if token[0] in token_dictionary
                     ],
-                    dtype=np.float32,
+                    dtype=np.float64,
                 ).reshape(-1, 2)
             )
     else:
@@ -861,7 +861,7 @@ def preprocess_timed_token_sequences(
                         else (token_dictionary[token[0]], token[1])
                         for token in sequence
                     ],
-                    dtype=np.float32,
+                    dtype=np.float64,
                 ).reshape(-1, 2)
             )
         token_dictionary[masking] = len(token_dictionary)
